@@ -386,6 +386,7 @@ def run(chk):
     _loopdone_rule(chk, prog)
     _threadjoin_rule(chk, prog)
     _armguard_rule(chk, prog)
+    _postpair_rule(chk, prog)
 
 
 ACQUIRE = ("socket", "accept", "accept4", "open", "dup", "inotify_init1", "inotify_init", "epoll_create1", "timerfd_create",
@@ -744,3 +745,58 @@ def _armguard_rule(chk, prog):
                                   "it guards (here the release of the message's heap payload) never happens" % (
                                       x.text()[:60], "/".join(arm), " or ".join(str(v) for v in armvals), "false" if x.op == "==" else "true"))
     chk.floor(rule, 20, n)
+
+
+def _postpair_rule(chk, prog):
+    """janet_ev_post_event counts every message it writes to a thread's self-pipe as pending work for that thread
+    (listener_count++), which keeps its event loop alive until the message has been consumed.  The consumer therefore
+    has to give the count back for EVERY message it reads - also for one without a callback (janet_loop1_interrupt)."""
+    rule = "C20-POSTPAIR"
+    chk.rule(rule, "the self-pipe handler gives back the pending-work count for every message it reads, whatever the message contains")
+    tu = prog.tus["ev.c"]
+    post = tu.funcs.get("janet_ev_post_event")
+    if post is None or not any(c.callee in ("janet_atomic_inc",) and "listener_count" in c.text() for c in post.calls()):
+        raise AnalysisBroken("janet_ev_post_event: increment of listener_count not found")
+    fn = tu.funcs.get("janet_ev_handle_selfpipe")
+    if fn is None:
+        raise AnalysisBroken("janet_ev_handle_selfpipe not found")
+    chk.analysed(fn)
+    reads = [c for c in fn.calls("read")]
+    if not reads:
+        raise AnalysisBroken("janet_ev_handle_selfpipe: read of the self-pipe not found")
+    resvar = None
+    p_ = reads[0].parent
+    while p_ is not None and p_.k not in ("asg", "vardecl"):
+        p_ = p_.parent
+    if p_ is not None:
+        resvar = p_.kids[0].name if p_.k == "asg" else p_.name
+
+    def transfer(st, x):
+        if x.k == "call" and x.callee == "janet_ev_dec_refcount":
+            return st - frozenset(["msg"])
+        return st
+
+    def edge(st, blk, succ, cond, truth):
+        c = flow.compare_of(cond, truth)
+        if c is None or c[2] is None:
+            return st
+        l, op, r = strip_casts(c[0]), c[1], strip_casts(c[2])
+        if is_ref(l, resvar) and r.v == 0 and op == ">":
+            return st | frozenset(["msg"])
+        return st
+    IN, OUT, T = flow.forward_paths(fn, frozenset(), transfer, edge)
+    bad = None
+    for x, S in flow.states_at(fn, IN, T):
+        if x in reads:
+            for ps in S:
+                if "msg" in ps:
+                    bad = x
+    ex = IN.get(fn.exit)
+    chk.instance(rule)
+    if bad is not None or (ex and any("msg" in ps for ps in ex)):
+        chk.violation(rule, "ev.c", fn.name, "message-without-decrement", reads[0].loc,
+                      "after a message was read from the self-pipe (`%s > 0`), the handler can go on to the next read / return without "
+                      "janet_ev_dec_refcount: a message without callback (janet_loop1_interrupt) leaves listener_count one too high for "
+                      "ever and janet_loop never finds the loop idle again" % resvar)
+    else:
+        chk.ok(rule, "janet_ev_handle_selfpipe: every message read is matched by janet_ev_dec_refcount")
